@@ -172,8 +172,41 @@ def leak_cause(w, occ, got):
     return "inaccessible-entity"
 
 
+def host_assoc_case(ctx, i, rng, res):
+    """entities reached by host association from other files (submodule, INCLUDEd fragments, a fragment of declarations shared by two includers):
+    unique names, so every occurrence of a name must lead to its one declaration"""
+    from vf import hostassoc as HA
+    files, names, vis = HA.gen(rng)
+    ws, srv, ev = H.start(files, nthreads=rng.choice([1, 2]))
+    try:
+        res.kind("class:host-assoc")
+        for nm in names:
+            decl = HA.declaration(files, nm)
+            if decl is None:
+                continue
+            for q in sorted(HA.occurrences(files, nm)):
+                if q[0].endswith("_inc.f90"):
+                    continue  # a position inside a fragment is resolved in whichever includer is current
+                r = srv.request("textDocument/definition", srv.pos(ws.uri(q[0]), q[1], q[2] + 1))
+                res.count("evaluations")
+                res.seen(i, nm, q)
+                got = None
+                if r[0] == "resp" and isinstance(r[2], dict):
+                    rg = r[2]["range"]
+                    got = (os.path.relpath(H.path_from_uri(r[2]["uri"]), ws.root), rg["start"]["line"], rg["start"]["character"], rg["end"]["character"])
+                if got != decl:
+                    res.violation(f"host-assoc:definition:{vis[nm]}:" + ("null" if got is None else "wrong"), f"definition of {nm} at {q[:3]} -> {got}, expected {decl}",
+                                  {"files": files, "name": nm, "query": list(q), "expected": list(decl)})
+                    break
+    finally:
+        ws.close()
+    return res
+
+
 def run_case(ctx, i, rng):
     res = Result()
+    if i % 12 == 11:
+        return host_assoc_case(ctx, i, rng, res)
     style = M.Style(rng) if rng.random() < 0.5 else None
     w = M.gen_workspace(rng, style=style, tight=rng.random() < 0.3)
     if M.have_gfortran():
